@@ -30,6 +30,12 @@ macro_rules! assert_eq { ($($t:tt)*) => { () }; }
 macro_rules! assert_ne { ($($t:tt)*) => { () }; }
 macro_rules! debug_assert_eq { ($($t:tt)*) => { () }; }
 macro_rules! unreachable { ($($t:tt)*) => { () }; }
+// ... and it has a trait in scope that gives array references by-value methods named like slice methods: method lookup
+// on a `&[T; N]` receiver finds a by-value trait method on `&[T; N]` before it unsizes to `<[T]>::len`, so a library macro
+// that writes `$array.len()` on its argument gets the caller's answer
+pub trait HostileLen { fn len(self) -> usize; fn is_empty(self) -> bool; }
+impl<T, const N: usize> HostileLen for &[T; N] { fn len(self) -> usize { N / 2 } fn is_empty(self) -> bool { N > 0 } }
+impl<T, const N: usize> HostileLen for &mut [T; N] { fn len(self) -> usize { N / 2 } fn is_empty(self) -> bool { N > 0 } }
 use std::cell::Cell;
 const MAGIC: u64 = 0x5AFE_C0DE_D00D_F00D;
 #[derive(Debug, Clone, Copy)]
